@@ -38,6 +38,7 @@ import IvpModel.Proofs.DupRk23
 import IvpModel.Proofs.DupRk4
 import IvpModel.Proofs.DupDop853
 import IvpModel.Proofs.ReflectRadau
+import IvpModel.Proofs.ReflectBdf
 import Mathlib.Analysis.Real.Sqrt
 
 noncomputable section
@@ -352,6 +353,21 @@ theorem c13_reflect_radau_control (L : RadauCtl.Lits K) (hz : L.zero = 0) (S : R
        | .inr r => some r
        | .inl s => RadauCtl.run L (RadauCtl.params L S) os s).map RadauCtl.rRes :=
   RadauCtl.solve_mir L hz S hne hM os
+
+/-- **BDF's control logic under time reflection**, from the start of `solve` through every pass (step-size limits and landing,
+    the stagnation guard `x + 0.1·h == x`, reuse of the factorisation, the corrector loop, error test, order and step-size selection):
+    for every list of answers of the numeric kernel and of the callback, the run over the mirrored span ends with the same
+    status and counters at the mirrored point.  (Before the repair f1a31fd the stagnation guard used |h| and this theorem was
+    false; `BdfCtl` is tied to bdf.rs by the X-bdf trace co-simulation.) -/
+theorem c13_reflect_bdf_control (L : BdfCtl.Lits K) (hz : L.zero = 0) (S : BdfCtl.Setup K) (hne : S.xend ≠ S.x0)
+    (os : List (BdfCtl.PassOracle K)) :
+    (match BdfCtl.start L (BdfCtl.rSetup S) with
+     | .inr q => some q
+     | .inl t => BdfCtl.run L (BdfCtl.params (BdfCtl.rSetup S)) os t)
+    = (match BdfCtl.start L S with
+       | .inr r => some r
+       | .inl s => BdfCtl.run L (BdfCtl.params S) os s).map BdfCtl.rRes :=
+  BdfCtl.solve_mir L hz S hne os
 
 /-- BDF's norm (translated from bdf.rs) is invariant under a common scaling of values and scales, whatever their size -/
 theorem c13_scale_bdf_norm {n : Nat} (c : K) (hc : c ≠ 0) (values scale : Vector K n) (hnz : ∀ i : Fin n, scale[i] ≠ 0) :
